@@ -45,9 +45,15 @@ namespace PyIpmi.Props.C11
 open PyIpmi PyIpmi.Model.Retry PyIpmi.Model.SdrXfer PyIpmi.Spec.Sdr
 open PyIpmi.Gen.Loops11 (consts xconsts variantRead xferShape zeroLenRaises)
 
-/-- What the source says now is what the model hard-wires (and the repaired variant). -/
+/-- What the source says now is what the model hard-wires, with the two repairs of this property
+(the 0xCA branch ends in `continue`; each chunk reader renews with its own store's Reserve command).
+Whether a renewed reservation id is handed on to the following chunks and records (`staleRes`, the
+subject of C13) is not fixed here: every theorem below holds either way (`variantRead` is whatever
+the working tree says; the lemmas ask for `fallThrough = false` and `renew s = s` only). -/
 theorem source_shape :
-    xferShape = XferShape.expected ∧ variantRead = Variant.intended ∧ zeroLenRaises = true := by decide
+    xferShape = XferShape.expected ∧
+    (variantRead = Variant.intended ∨ variantRead = { Variant.intended with staleRes := true }) ∧
+    zeroLenRaises = true := by decide
 
 theorem constants_ok :
     xconsts = ⟨5, 20, 20, 4, 0xCA, 0xFFFF⟩ ∧ consts.ccOk = 0 ∧ consts.chunkRetryDefault = 5 ∧
@@ -244,7 +250,7 @@ example : (getSdrData consts xconsts variantRead (step ⟨[recB], [], 16, false,
 5 header bytes are appended again, the 16-byte read that follows starts at offset 10, and the
 result has the right length and next id but is not the record. -/
 theorem asShipped_duplicates_after_refusal :
-    ∃ d, (getSdrData consts xconsts ⟨true, .repo, .dev⟩ (step ⟨[recB], [], 16, false, [], []⟩) .repo st0 0 none).2
+    ∃ d, (getSdrData consts xconsts ⟨true, .repo, .dev, true⟩ (step ⟨[recB], [], 16, false, [], []⟩) .repo st0 0 none).2
         = .ok (0xFFFF, d) ∧ d.length = recB.length ∧ d ≠ recB ∧ d.take 10 = recB.take 5 ++ recB.take 5 := by
   refine ⟨recB.take 5 ++ recB.take 5 ++ (recB.drop 10).take 16 ++ (recB.drop 26).take 4, ?_, ?_, ?_, ?_⟩ <;> decide
 
@@ -252,9 +258,9 @@ theorem asShipped_duplicates_after_refusal :
 cancellation the repository reservation is never valid again and the read ends in RetryError; the
 exchange after the cancelled Get is the other store's Reserve. -/
 theorem asShipped_renews_wrong_store :
-    (getSdrData consts xconsts ⟨false, .dev, .dev⟩ (step ⟨[recB], [], 255, false, [2], []⟩) .repo st0 0 none).2
+    (getSdrData consts xconsts ⟨false, .dev, .dev, true⟩ (step ⟨[recB], [], 255, false, [2], []⟩) .repo st0 0 none).2
       = .retryError ∧
-    ∃ a, (getSdrData consts xconsts ⟨false, .dev, .dev⟩ (traced (step ⟨[recB], [], 255, false, [2], []⟩)) .repo
+    ∃ a, (getSdrData consts xconsts ⟨false, .dev, .dev, true⟩ (traced (step ⟨[recB], [], 255, false, [2], []⟩)) .repo
       (st0, []) 0 none).1.2[3]? = some (.reserve .dev, a) := by
   refine ⟨by decide, ⟨.reserved 42, by decide⟩⟩
 
